@@ -8,6 +8,7 @@ package main
 
 import (
 	"errors"
+	"fmt"
 
 	v1 "k8s.io/api/core/v1"
 	"k8s.io/apimachinery/pkg/api/resource"
@@ -385,6 +386,13 @@ const sigStale = "C19-update-threshold-keeps-stale-larger-amount"
 
 func labelOn(l int64) bool { return l == 1 || l == 4 }
 
+func optVal(o []int64) int64 {
+	if o[0] == 0 {
+		return 0
+	}
+	return o[1]
+}
+
 func lawsPipeline(in, got []int64, law func(lsel int, lin []int64, sig string)) {
 	r := &rd{t: in}
 	g := &rd{t: got}
@@ -455,6 +463,9 @@ func lawsPipeline(in, got []int64, law func(lsel int, lin []int64, sig string)) 
 			if ev != nil {
 				// every emitted event against the node's CURRENT allocatable and ratio
 				law(104, cat([]int64{ratio, acpu, amem}, ev), "")
+				// and as a report of the queue it was computed from (non-negative, <= largest sample,
+				// exact weighted floor or cap, zero for switched-off types)
+				law(102, cat(q, encList(cfgTypes), annotTok(), []int64{ratio, acpu, amem, 1}, ev), "")
 			}
 			switch {
 			case !handled || fail == 2 || !labelOn(bl):
@@ -467,7 +478,16 @@ func lawsPipeline(in, got []int64, law func(lsel int, lin []int64, sig string)) 
 				forced := times%6 == 0
 				law(121, cat([]int64{vh.B(forced)}, bc, bm, ac, am, ev), "")
 				law(122, cat(encList(cfgTypes), annotTok(), ac, am), "")
-				law(125, cat([]int64{ratio, sinceC, sinceM}, q, ac, am), sigStale)
+				// the known finding's mechanism: the write was skipped (not a forced re-sync) because
+				// the event is within the threshold; a strict-law failure after a real write is no known finding
+				sig := ""
+				if !forced && fmt.Sprint(ac) == fmt.Sprint(bc) && fmt.Sprint(am) == fmt.Sprint(bm) &&
+					(fmt.Sprint(ev) != fmt.Sprint([]int64{optVal(bc), optVal(bm)})) {
+					sig = sigStale
+				}
+				law(125, cat([]int64{ratio, sinceC, sinceM}, q, ac, am), sig)
+				// against the CURRENT allocatable: at most 10/9 of ratio%
+				law(126, cat([]int64{ratio, acpu, amem}, ac, am), "")
 				if bl != al {
 					panic("a report changed the over-subscription label")
 				}
